@@ -672,7 +672,7 @@ class Cone(Quadric):
         if radius == 0:
             raise ValueError("The radius of a cone can not be zero.")
 
-        from geometer.operators import angle, dist
+        from geometer.operators import dist
 
         h = dist(vertex, base_center)
         c = (radius / h) ** 2
@@ -680,8 +680,10 @@ class Cone(Quadric):
         if np.isinf(h):
             # cone with vertex at infinity is a cylinder with the center of the base as center
             v = base_center.normalized_array
+            d = vertex.array[:3]
         else:
             v = vertex.normalized_array
+            d = base_center.normalized_array[:3] - v[:3]
 
         # first build a cone with axis parallel to the z-axis
         m = np.eye(4, dtype=np.promote_types(v.dtype, type(c)))
@@ -701,9 +703,10 @@ class Cone(Quadric):
         new_axis = Line(vertex, base_center)
 
         if new_axis != axis:
-            a = angle(axis, new_axis)
-            e = axis.join(new_axis)
-            t = rotation(a, axis=Point(*e.array[:3]))
+            # rotate the z-axis onto the direction d of the new axis: about their common normal, by the angle between them
+            n = np.cross([0, 0, 1], d)
+            a = np.arctan2(np.linalg.norm(n), d[2])
+            t = rotation(a, axis=Point(*n))
             t = translation(v) * t * translation(-v)
             m = t.array.T.dot(m).dot(t.array)
 
